@@ -207,16 +207,20 @@ class _Gate(object):
 
 
 def _gated_call(payload):
-    fun, arg, slot = payload
+    blob, slot = payload
     gate = _GATE
     gate.started[slot].release()
     try:
+        fun, arg = (_dill or pickle).loads(blob)
         r = fun(arg)
         ok = True
     except Exception as e:
         r, ok = e, False
     gate.sems[slot].acquire()
-    return ok, r
+    try:
+        return (_dill or pickle).dumps((ok, r))
+    except Exception as e:
+        return pickle.dumps((False, RuntimeError("unpicklable result: %r" % e)))
 
 
 _GATE = None
@@ -273,12 +277,14 @@ class GatedPool(object):
         for i, k in enumerate(order):
             while started < min(n, i + W):
                 ks = order[started]
-                handles[ks] = self.pool.apply_async(_gated_call, ((fun, tasks[ks - 1], ks - 1),))
-                _GATE.started[ks - 1].acquire()
+                blob = (_dill or pickle).dumps((fun, tasks[ks - 1]))
+                handles[ks] = self.pool.apply_async(_gated_call, ((blob, ks - 1),))
+                if not _GATE.started[ks - 1].acquire(timeout=120):
+                    raise RuntimeError("MACHINERY: gated task %d did not start" % ks)
                 self.sched.ev(ev="Start", call=c, k=ks)
                 started += 1
             _GATE.sems[k - 1].release()
-            ok, r = handles[k].get()
+            ok, r = (_dill or pickle).loads(handles[k].get(timeout=600))
             if ok:
                 res[k - 1] = r
             else:
